@@ -1,2 +1,396 @@
-// Package c15 will hold the check for property C15.
+// Package c15 decides C15: every monitor (message-hub listener) first receives the retained
+// history, oldest first, and then every later stored/deleted event for its filter exactly once in
+// the hub's order; a listener that fails, is slow or disconnects is dropped without making any
+// other listener miss an event and without blocking the hub.
+//
+// Streams (see DESIGN.md section 5, C15):
+//
+//	hub       (a) the real msghub.Hub with harness listeners, 1-4 producer goroutines
+//	close     (b) the real msgListenerV1/V2 (rest.VerifNewListenerV1/V2): enumerated close protocol
+//	slow      (b) a real listener whose consumer stops reading
+//	healthy   (b) real listeners that are consumed concurrently by a harness "socket writer"
+//	hist0     history length 0 (monitor disabled): no panic, no block
+//	ws        (c) thorough only: real WebSocket clients against the real routes
+//	shutdown  operations after / during cancellation of the hub's context (run last: a panic here
+//	          kills the child, which the parent reports as crash:<function>)
 package c15
+
+import (
+	"context"
+	"errors"
+	"fmt"
+	"net/mail"
+	"os"
+	"strings"
+	"sync"
+	"sync/atomic"
+	"time"
+
+	"github.com/inbucket/inbucket/v3/pkg/extension"
+	"github.com/inbucket/inbucket/v3/pkg/extension/event"
+	"github.com/inbucket/inbucket/v3/pkg/msghub"
+
+	"verifharness/internal/fw"
+)
+
+func init() {
+	fw.Register(&fw.Prop{
+		ID:    "C15",
+		Level: "exploration",
+		Race:  true,
+		Rule: "(hub) seeded sequences of Dispatch/Delete/AddListener/RemoveListener/Sync on the real msghub.Hub with history length in " +
+			"{1,2,5,30,150}, issued by 1 goroutine (exact hub order known) or 2-4 goroutines (hub order = what a witness listener that joined " +
+			"first saw; it must agree with every producer's own order), harness listeners incl. ones failing from their k-th call; oracle M-hub " +
+			"(ring of the last N dispatched minus deleted): each listener gets retained history at its join, oldest first, then every later event " +
+			"once in hub order until removed/failed. (close) the real v1/v2 socket listeners with the harness as socket reader/writer: " +
+			"version x mailbox filter x events buffered at close {0,1,2,99,100,100+N} x closer {reader, writer, reader twice, reader then writer, " +
+			"both concurrently, reader while writer consumes} x events {none, queued between Close's shutdown and its RemoveListener, right after, " +
+			"unsynced before}; (slow) consumer stops with more pending than the queue holds; (healthy) concurrently consumed listeners must deliver " +
+			"history then every matching event once in order; in all of them 2-3 well-behaved harness listeners must see EVERY event once in order, " +
+			"and after the faulty listener 250 further events + Hub.Sync must return. (shutdown) operations after/during hub context cancellation " +
+			"return and do not panic. A case is non-trivial when at least one listener sequence was compared against a non-empty expectation; " +
+			"distinct by its parameter signature.",
+		Assumptions: []string{
+			"harness listeners never block for good and return errors only as scripted; a listener that itself blocks inside Receive stalls the hub by construction and is outside the property",
+			"hub order with several producers is taken from a witness listener and cross-checked with every producer's program order; events carry their producer in the id",
+			"the v1 socket API has no deleted events (code comment in socketv1_controller.go), so v1 listeners are expected to deliver stored events only",
+			"what a listener's client receives after the listener was closed or dropped is not judged beyond order (no duplicates, no reordering)",
+			"history length 0 is run for no-panic/no-block only (doc/config.md: the monitor is disabled)",
+			"bounded progress: Hub.Sync after 250 further events must return within 20 s (x4 on the parent's confirmation rerun)",
+		},
+		MinObs: func(tier string) map[string]int64 {
+			m := map[string]int64{
+				"hub_cases_single_producer":      2500,
+				"hub_cases_multi_producer":       2500,
+				"hub_listener_sequences_checked": 50000,
+				"hub_joins_with_history":         40000,
+				"hub_history_events_replayed":    1000000,
+				"hub_deletes_clearing_history":   50000,
+				"hub_ring_wraps":                 100000,
+				"hub_failing_dropped_live":       4000,
+				"hub_failing_in_replay":          6000,
+				"hub_removed_listeners_checked":  12000,
+				"hub_dispatch_without_listeners": 4000,
+				"close_cases":                    1152,
+				"close_real_events_delivered":    1000,
+				"close_post_close_drained":       20000,
+				"close_buffered_at_close_full":   150,
+				"close_between_events":           400,
+				"close_harness_sequences":        2500,
+				"sync_after_250_ok":              2400,
+				"slow_cases":                     144,
+				"slow_listener_dropped":          100,
+				"healthy_cases":                  1200,
+				"healthy_real_events_delivered":  100000,
+				"healthy_v2_delete_events":       8000,
+				"hist0_cases":                    48,
+				"shutdown_cases":                 192,
+				"shutdown_ops_after_cancel":      30000,
+				"evaluations":                    20000,
+				"distinct_nontrivial":            4000,
+			}
+			if tier == "thorough" {
+				m["ws_cases"] = 240
+				m["ws_events_read"] = 50000
+				m["ws_good_clients_checked"] = 600
+				m["close_cases"] = 2880
+				m["slow_cases"] = 240
+			}
+			return m
+		},
+		Run: run,
+	})
+}
+
+func run(c *fw.Ctx) {
+	// C15_STREAMS (developer aid): comma separated subset of streams to run.
+	want := func(stream string) bool {
+		sel := os.Getenv("C15_STREAMS")
+		return sel == "" || strings.Contains(","+sel+",", ","+stream+",")
+	}
+	if want("hub") {
+		c.Cases("hub", c.N(20000, 300000), func(i int, r *fw.Rand) { hubCase(c, i, r) })
+	}
+	if want("close") {
+		c.Cases("close", closeCount(c), func(i int, r *fw.Rand) { closeCase(c, i, r) })
+	}
+	if want("slow") {
+		c.Cases("slow", slowCount(c), func(i int, r *fw.Rand) { slowCase(c, i, r) })
+	}
+	if want("healthy") {
+		c.Cases("healthy", c.N(1200, 12000), func(i int, r *fw.Rand) { healthyCase(c, i, r) })
+	}
+	if want("hist0") {
+		c.Cases("hist0", c.N(48, 480), func(i int, r *fw.Rand) { hist0Case(c, i, r) })
+	}
+	if (!c.Quick() || os.Getenv("C15_STREAMS") != "") && want("ws") {
+		wsCases(c)
+	}
+	// Last: a panic on a late operation kills this child; everything above is already on disk.
+	c.Flush(false)
+	if want("shutdown") {
+		c.Cases("shutdown", c.N(192, 3840), func(i int, r *fw.Rand) { shutdownCase(c, i, r) })
+	}
+}
+
+var histLens = []int{1, 2, 5, 30, 150}
+
+// sampleHere spreads the evidence samples over the streams: the parent keeps the first sample
+// of the first four children, so child b samples (first) from stream b mod 4.
+func sampleHere(c *fw.Ctx, stream string) bool {
+	return []string{"hub", "close", "healthy", "slow"}[c.Batch%4] == stream
+}
+
+var mailboxes = []string{"alpha", "beta", "gamma"}
+
+// ---------------------------------------------------------------------------------------------
+// Events and the reference model M-hub.
+
+// ev is one hub event as a listener sees it.
+type ev struct {
+	Del bool   `json:"del,omitempty"`
+	MB  string `json:"mb"`
+	ID  string `json:"id"`
+}
+
+func (e ev) String() string {
+	if e.Del {
+		return "D:" + e.MB + "/" + e.ID
+	}
+	return "S:" + e.MB + "/" + e.ID
+}
+
+func evStrings(es []ev, max int) []string {
+	out := []string{}
+	for i, e := range es {
+		if i >= max {
+			out = append(out, fmt.Sprintf("...(%d more)", len(es)-max))
+			break
+		}
+		out = append(out, e.String())
+	}
+	return out
+}
+
+var fixedDate = time.Date(2024, 2, 3, 4, 5, 6, 0, time.UTC)
+
+func subjectOf(id string) string { return "subj " + id }
+
+func meta(e ev) event.MessageMetadata {
+	return event.MessageMetadata{
+		Mailbox: e.MB, ID: e.ID,
+		From:    &mail.Address{Name: "Sender", Address: "from@example.test"},
+		To:      []*mail.Address{{Address: e.MB + "@inbucket.test"}},
+		Date:    fixedDate,
+		Subject: subjectOf(e.ID),
+		Size:    int64(100 + len(e.ID)),
+	}
+}
+
+type slot struct {
+	e    ev
+	dead bool
+}
+
+// mhub is M-hub: the last n dispatched events, minus deleted ones.
+type mhub struct {
+	n       int
+	ring    []slot
+	wraps   int64
+	delHits int64
+}
+
+func (m *mhub) apply(e ev) {
+	if m.n <= 0 {
+		return
+	}
+	if e.Del {
+		for i := range m.ring {
+			if !m.ring[i].dead && m.ring[i].e.MB == e.MB && m.ring[i].e.ID == e.ID {
+				m.ring[i].dead = true
+				m.delHits++
+				break
+			}
+		}
+		return
+	}
+	m.ring = append(m.ring, slot{e: e})
+	if len(m.ring) > m.n {
+		m.ring = m.ring[1:]
+		m.wraps++
+	}
+}
+
+// retained returns the history a listener joining now must be replayed, oldest first.
+func (m *mhub) retained() []ev {
+	out := make([]ev, 0, len(m.ring))
+	for _, s := range m.ring {
+		if !s.dead {
+			out = append(out, s.e)
+		}
+	}
+	return out
+}
+
+// ---------------------------------------------------------------------------------------------
+// Harness listener.
+
+var errScripted = errors.New("harness listener: scripted failure")
+
+// hl is a msghub.Listener that records what it is given.  From its failAt-th call on (1-based,
+// 0 = never) every call returns an error.  If gate is non-nil its first call parks the calling
+// (hub) goroutine until the gate is closed: a deterministic way to let operations pile up in
+// the hub's queue.
+type hl struct {
+	name    string
+	failAt  int
+	gate    chan struct{}
+	entered chan struct{}
+
+	mu    sync.Mutex
+	got   []ev
+	calls int
+}
+
+func (l *hl) Receive(msg event.MessageMetadata) error {
+	return l.note(ev{MB: msg.Mailbox, ID: msg.ID}, strings.HasPrefix(msg.Subject, subjectOf(msg.ID)))
+}
+
+func (l *hl) Delete(mailbox string, id string) error {
+	return l.note(ev{Del: true, MB: mailbox, ID: id}, true)
+}
+
+func (l *hl) note(e ev, intact bool) error {
+	l.mu.Lock()
+	l.calls++
+	n := l.calls
+	if !intact {
+		e.ID += "(subject altered)"
+	}
+	l.got = append(l.got, e)
+	l.mu.Unlock()
+	if n == 1 && l.gate != nil {
+		close(l.entered)
+		<-l.gate
+	}
+	if l.failAt > 0 && n >= l.failAt {
+		return errScripted
+	}
+	return nil
+}
+
+func (l *hl) snapshot() []ev {
+	l.mu.Lock()
+	defer l.mu.Unlock()
+	return append([]ev(nil), l.got...)
+}
+
+// ---------------------------------------------------------------------------------------------
+// Hub life cycle.
+
+type hubRun struct {
+	hub     *msghub.Hub
+	cancel  context.CancelFunc
+	stopped chan struct{} // closed when Hub.Start has returned
+}
+
+func startHub(n int) *hubRun {
+	h := &hubRun{hub: msghub.New(n, extension.NewHost()), stopped: make(chan struct{})}
+	ctx, cancel := context.WithCancel(context.Background())
+	h.cancel = cancel
+	go func() {
+		defer close(h.stopped)
+		h.hub.Start(ctx)
+	}()
+	return h
+}
+
+// stop cancels the hub context; it does not wait (a wedged hub never returns).
+func (h *hubRun) stop() { h.cancel() }
+
+// hangs counts bounded-progress failures seen by this child: once a tree is known to wedge, the
+// remaining cases use a shorter (still generous) budget so a broken tree is reported quickly.
+var hangs atomic.Int64
+
+func budget() time.Duration {
+	switch h := hangs.Load(); {
+	case h >= 10:
+		return 1500 * time.Millisecond
+	case h >= 3:
+		return 4 * time.Second
+	}
+	return 20 * time.Second
+}
+
+// bounded runs f under the bounded-progress watchdog; stage tells where f was when it fired.
+func bounded(c *fw.Ctx, name string, descr string, stage *atomic.Value, f func()) bool {
+	ok, dump := c.Within(budget(), f)
+	if !ok {
+		hangs.Add(1)
+		st, _ := stage.Load().(string)
+		c.Hang(name, fmt.Sprintf("%s: no progress at stage %q", descr, st), dump)
+	}
+	return ok
+}
+
+func eqEv(a, b []ev) bool {
+	if len(a) != len(b) {
+		return false
+	}
+	for i := range a {
+		if a[i] != b[i] {
+			return false
+		}
+	}
+	return true
+}
+
+// classify names the first difference between what a listener got and what it had to get.
+// histLen is the number of leading expected events that are history replay.
+func classify(got, exp []ev, histLen int) (class string, what string) {
+	p := 0
+	for p < len(got) && p < len(exp) && got[p] == exp[p] {
+		p++
+	}
+	switch {
+	case p == len(got) && p == len(exp):
+		return "", ""
+	case p == len(exp):
+		seen := false
+		for _, e := range exp {
+			if e == got[p] {
+				seen = true
+			}
+		}
+		if seen {
+			return "duplicate-event", fmt.Sprintf("extra event #%d %v after the complete expected sequence (already delivered before)", p, got[p])
+		}
+		return "unexpected-event", fmt.Sprintf("extra event #%d %v after the complete expected sequence of %d", p, got[p], len(exp))
+	case p == len(got):
+		if p < histLen {
+			return "history-replay", fmt.Sprintf("history replay stops after %d of %d retained messages (next expected %v)", p, histLen, exp[p])
+		}
+		return "missed-event", fmt.Sprintf("received %d events, expected %d; first missing #%d %v", len(got), len(exp), p, exp[p])
+	}
+	if p < histLen {
+		return "history-replay", fmt.Sprintf("history replay differs at #%d: got %v, expected %v (retained history has %d)", p, got[p], exp[p], histLen)
+	}
+	// Event values can legitimately repeat (the same delete issued twice): compare multiplicities.
+	cnt := func(es []ev, x ev) (n int) {
+		for _, e := range es {
+			if e == x {
+				n++
+			}
+		}
+		return
+	}
+	switch {
+	case cnt(exp, got[p]) == 0:
+		return "unexpected-event", fmt.Sprintf("event #%d %v is not expected at all (expected %v)", p, got[p], exp[p])
+	case cnt(got, got[p]) > cnt(exp, got[p]):
+		return "duplicate-event", fmt.Sprintf("event #%d %v was delivered %d times, issued %d times (expected here: %v)", p, got[p], cnt(got, got[p]), cnt(exp, got[p]), exp[p])
+	case cnt(got, exp[p]) < cnt(exp, exp[p]):
+		return "missed-event", fmt.Sprintf("event #%d %v never delivered (got %v in its place)", p, exp[p], got[p])
+	}
+	return "order", fmt.Sprintf("event #%d is %v, expected %v (both delivered, wrong order)", p, got[p], exp[p])
+}
